@@ -102,6 +102,27 @@ func detWorkload(t *sim.Tape) (ops []detOp, desc string) {
 			return dump.Err(err) + " " + buf.String()
 		}})
 	}
+	if t.Choose(3) == 0 {
+		if bf, _ := gen.BigSeacFont(t); bf != nil {
+			ops = append(ops, detOp{name: "type1.Read(large seac font)", run: func() string {
+				g, err := type1.Read(bytes.NewReader(bf))
+				return dump.Err(err) + " " + dump.Font(g)
+			}})
+		}
+	}
+	if lf, n := gen.LenIVFont(t); lf != nil {
+		// an ordinary font read again after a font with another lenIV
+		ord := fontFiles
+		ops = append(ops, detOp{name: fmt.Sprintf("type1.Read(lenIV %d font) then ordinary font", n), run: func() string {
+			g, err := type1.Read(bytes.NewReader(lf))
+			r := dump.Err(err) + " " + dump.Font(g)
+			if len(ord) > 0 {
+				g2, err2 := type1.Read(bytes.NewReader(ord[len(ord)-1]))
+				r += " | " + dump.Err(err2) + " " + dump.Font(g2)
+			}
+			return r
+		}})
+	}
 	if af := gen.AliasFont(t); af != nil {
 		ops = append(ops, detOp{name: "type1.Read(font registered under two names)", run: func() string {
 			g, err := type1.Read(bytes.NewReader(af))
